@@ -36,6 +36,9 @@ var extraRequire = map[string][]string{
 	"C15": {"cli_diff_graft", "cli_diff_repopulate", "cli_diff_merge"},
 }
 
+// cliDiffMore: generators of further differential families (searched by the replay function)
+var cliDiffMore []func(quick bool) []cliDiff
+
 func addExtra(id string, f func(c *Ctx)) { extras[id] = append(extras[id], f) }
 
 type cliDiffCase struct {
@@ -126,8 +129,8 @@ func cliDiffPairs(ds []cliDiff, every int) []cliDiff {
 	byArgs := map[string][]int{}
 	var order []string
 	for i, d := range ds {
-		if len(d.files) != 1 || d.files["t.nw"] == "" {
-			continue
+		if len(d.files) != 1 || d.files["t.nw"] == "" || c18hasFlag(d.args, "--seed") {
+			continue // (seeded commands draw from one generator for the whole file: the per-tree library calls would re-seed)
 		}
 		k := d.fam + " " + strings.Join(d.args, " ")
 		if _, ok := byArgs[k]; !ok {
@@ -786,20 +789,22 @@ func cliDiffReplay(c *Ctx, raw json.RawMessage) bool {
 		return false
 	}
 	defer cliCleanup()
-	gens := map[string]func(bool) []cliDiff{"C07": cliDiffC07, "C05": cliDiffC05, "C09": cliDiffC09, "C10": cliDiffC10, "C08": cliDiffC08, "C12": cliDiffC12, "C15": cliDiffC15}
-	g := gens[cs.Prop]
-	if g == nil {
-		return false
-	}
-	for _, quick := range []bool{true, false} {
-		for _, d := range g(quick) {
-			if strings.Join(d.args, " ") == strings.Join(cs.Args, " ") && cliFilesDesc(d.files) == cliFilesDesc(cs.Files) {
-				k, w := d.run()
-				fmt.Println(k, w)
-				if k != "" {
-					c.Violate(k, w, cs)
+	gens := append([]func(bool) []cliDiff{cliDiffC07, cliDiffC05, cliDiffC09, cliDiffC10, cliDiffC08, cliDiffC12, cliDiffC15}, cliDiffMore...)
+	for _, g := range gens {
+		for _, quick := range []bool{true, false} {
+			ds := g(quick)
+			if len(ds) == 0 || ds[0].prop != cs.Prop {
+				break
+			}
+			for _, d := range append(ds, cliDiffPairs(ds, 3)...) {
+				if strings.Join(d.args, " ") == strings.Join(cs.Args, " ") && cliFilesDesc(d.files) == cliFilesDesc(cs.Files) {
+					k, w := d.run()
+					fmt.Println(k, w)
+					if k != "" {
+						c.Violate(k, w, cs)
+					}
+					return true
 				}
-				return true
 			}
 		}
 	}
